@@ -361,7 +361,7 @@ func vTokenJSON(idToken, access, refresh string, expiresIn int) string {
 type vFault int
 
 const (
-	vNoFault vFault = iota
+	vNoFault   vFault = iota
 	vErrBefore        // the operation fails and has no effect
 	vErrAfter         // the operation takes effect but the reply is lost
 	vCorrupt          // Get returns the value with bits flipped
@@ -384,17 +384,18 @@ type vRedisEntry struct {
 }
 
 type vRedis struct {
-	mu       sync.Mutex
-	data     map[string]vRedisEntry
-	locks    map[string]int // key -> holder id
-	ops      []vRedisOp
-	faults   map[int]vFault // by operation index
-	faultArg map[int]int
-	down     bool
-	nextLock int
-	hookPause bool // operations are neither logged nor faulted (drivers: steps outside the flow under test)
-	hook     func(kind, key string) // called before the operation, outside mu
-	ctxHook  func(ctx context.Context, kind, key string) // scheduler hook (C12)
+	mu        sync.Mutex
+	data      map[string]vRedisEntry
+	locks     map[string]int // key -> holder id
+	ops       []vRedisOp
+	faults    map[int]vFault // by operation index
+	faultArg  map[int]int
+	down      bool
+	nextLock  int
+	failKind  map[string]bool                             // every operation of these kinds fails (get / set / del / lock-...)
+	hookPause bool                                        // operations are neither logged nor faulted (drivers: steps outside the flow under test)
+	hook      func(kind, key string)                      // called before the operation, outside mu
+	ctxHook   func(ctx context.Context, kind, key string) // scheduler hook (C12)
 }
 
 func vNewRedis() *vRedis {
@@ -419,7 +420,7 @@ func (r *vRedis) begin(ctx context.Context, kind, key string) (int, vFault) {
 	}
 	idx := len(r.ops)
 	f := r.faults[idx]
-	if r.down {
+	if r.down || r.failKind[kind] {
 		f = vErrBefore
 	}
 	if f == vHang {
@@ -654,13 +655,13 @@ type vEnv struct {
 }
 
 type vEnvCfg struct {
-	redis bool
-	oidc  bool // OIDC provider against the in-memory IdP (otherwise the default test provider options)
-	mod   func(*options.Options)
-	post  func(*vEnv) // after construction
-	optional bool     // validation failure is not fatal
-	keepUpstream bool // keep the real upstream proxy (C17) instead of the recording handler
-	extraJWT bool     // skip-jwt-bearer-tokens with a second issuer (extra-jwt-issuers): bearer tokens of idp2.example
+	redis        bool
+	oidc         bool // OIDC provider against the in-memory IdP (otherwise the default test provider options)
+	mod          func(*options.Options)
+	post         func(*vEnv) // after construction
+	optional     bool        // validation failure is not fatal
+	keepUpstream bool        // keep the real upstream proxy (C17) instead of the recording handler
+	extraJWT     bool        // skip-jwt-bearer-tokens with a second issuer (extra-jwt-issuers): bearer tokens of idp2.example
 }
 
 var vTmpDir string
@@ -823,13 +824,13 @@ func (e *vEnv) serve(req *http.Request) (res *vResult) {
 }
 
 type vMainBrowser struct {
-	e      *vEnv
-	jar    *cookiejar.Jar
-	origin *url.URL
-	remote string
-	ever   map[string]string // every cookie (name=value) the jar ever held
-	host   string            // Host header sent to the proxy when it differs from the origin (reverse proxy in front)
-	deadline time.Duration   // when > 0 every request carries a context that ends after this long
+	e        *vEnv
+	jar      *cookiejar.Jar
+	origin   *url.URL
+	remote   string
+	ever     map[string]string // every cookie (name=value) the jar ever held
+	host     string            // Host header sent to the proxy when it differs from the origin (reverse proxy in front)
+	deadline time.Duration     // when > 0 every request carries a context that ends after this long
 }
 
 func (e *vEnv) newBrowser(origin string) *vMainBrowser {
@@ -1027,7 +1028,6 @@ func vForgeStateRedirect(state, redirect string, enc bool) string {
 	return raw
 }
 
-
 // lockHeld reports whether the lock for key is currently held (scheduler: a thread about to
 // obtain a held lock is blocked).
 func (r *vRedis) lockHeld(lockKey string) bool {
@@ -1038,7 +1038,6 @@ func (r *vRedis) lockHeld(lockKey string) bool {
 }
 
 func newSafeRecorder() *httptest.ResponseRecorder { return httptest.NewRecorder() }
-
 
 // vClaims2: a valid claim set of the second issuer (accepted only through the extra-jwt-issuers loader).
 func vClaims2(email string, extra map[string]interface{}) map[string]interface{} {
